@@ -280,6 +280,49 @@ def clausePass (ls : List Atom) (d : Doms) : Option Doms :=
     | [] => none
     | p :: rest => if rest.all (fun q => q == p) then postAtom d p else some d
 
+/-! ### cumulative: time-table filtering (see `Model/Cumulative.lean` for the description) -/
+
+def ttTasks (ts : List Task) : List Task := ts.filter (fun k => decide (0 < k.dur) && decide (0 < k.use))
+
+def mandatoryAt (d : Doms) (k : Task) (t : Int) : Bool :=
+  decide (ub d k.start ≤ t) && decide (t < lb d k.start + k.dur)
+
+def heightAt (d : Doms) (ts : List Task) (t : Int) : Int :=
+  (ts.map (fun k => if mandatoryAt d k t then k.use else 0)).foldl (· + ·) 0
+
+def intRange (lo hi : Int) : List Int := (List.range (hi + 1 - lo).toNat).map (fun (i : Nat) => lo + Int.ofNat i)
+
+/-- the time points of the mandatory parts (where the profile can be positive) -/
+def ttTimes (d : Doms) (ts : List Task) : List Int :=
+  ts.flatMap (fun k => intRange (ub d k.start) (lb d k.start + k.dur - 1))
+
+/-- the rules of `find_possible_updates` for one task and one time point; the profile height is read
+off the current domains -/
+def ttTaskAt (holes : Bool) (cap : Int) (ts : List Task) (t : Int) (k : Task) (d : Doms) : Option Doms :=
+  if heightAt d ts t + k.use > cap ∧ mandatoryAt d k t = false ∧ lb d k.start ≤ t ∧ t < ub d k.start + k.dur then
+    (if lb d k.start + k.dur > t ∧ lb d k.start ≤ t then setLb d k.start (t + 1) else some d).bind fun d1 =>
+    (if ub d1 k.start + k.dur > t ∧ ub d1 k.start ≤ t then setUb d1 k.start (t - k.dur) else some d1).bind fun d2 =>
+    if holes then keep d2 k.start (fun z => !(decide (t - k.dur < z) && decide (z ≤ t))) else some d2
+  else some d
+
+def ttTasksAt (holes : Bool) (cap : Int) (ts : List Task) (t : Int) : List Task → Doms → Option Doms
+  | [], d => some d
+  | k :: r, d => (ttTaskAt holes cap ts t k d).bind (ttTasksAt holes cap ts t r)
+
+def ttPoints (holes : Bool) (cap : Int) (ts : List Task) : List Int → Doms → Option Doms
+  | [], d => some d
+  | t :: r, d =>
+    if heightAt d ts t > cap then none
+    else if heightAt d ts t > 0 then (ttTasksAt holes cap ts t ts d).bind (ttPoints holes cap ts r)
+    else ttPoints holes cap ts r d
+
+/-- one evaluation of the time-table: conflict check and filtering -/
+def ttPass (holes : Bool) (ts : List Task) (cap : Int) (d : Doms) : Option Doms :=
+  let ts' := ttTasks ts
+  if ts'.any (fun k => decide (k.use > cap)) then none
+  else ttPoints holes cap ts' (ttTimes d ts') d
+
+
 /-! ### propagator instances, reification -/
 
 inductive PropInst where
@@ -291,6 +334,7 @@ inductive PropInst where
   | div (n d r : View)
   | element (i : View) (xs : List View) (r : View)
   | clause (ls : List Atom)
+  | cumulative (holes : Bool) (ts : List Task) (cap : Int)
   | reified (r : Atom) (p : PropInst)
 deriving Repr, Inhabited
 
@@ -306,6 +350,7 @@ def cons : PropInst → Cons
   | div n d r => .div n d r
   | element i xs r => .element i xs r
   | clause ls => .clause ls
+  | cumulative _ ts cap => .cumulative ts cap
   | reified r p => .implied r p.cons
 
 /-- `Propagator::detect_inconsistency` (only `LinearLeq` overrides the default `None`) -/
@@ -322,6 +367,7 @@ def pass : PropInst → Doms → Option Doms
   | div n dn r, d => divPass n dn r d
   | element i xs r, d => elementPass i xs r d
   | clause ls, d => clausePass ls d
+  | cumulative holes ts cap, d => ttPass holes ts cap d
   | reified r p, d0 =>
     -- propagate_reification
     (if !(atomTrue d0 r || atomFalse d0 r) && p.inconsistent d0 then postAtom d0 r.neg else some d0).bind fun d =>
@@ -382,6 +428,7 @@ def compileWith (orig : Doms) (imp : Option Atom) : Cons → Option (List PropIn
   | .allDiff xs => some ((pairs xs).map (fun p => wrap (.linNe [p.1.scaled 1, p.2.scaled (-1)] 0)))
   | .clause ls => some (clauseInst orig (match imp with | some r => ls ++ [r.neg] | none => ls))
   | .conj ls => some (ls.flatMap (fun l => clauseInst orig (match imp with | some r => [r.neg, l] | none => [l])))
+  | .cumulative ts cap => some [wrap (.cumulative false ts cap)]
   | _ => none
 where
   wrap (p : PropInst) : PropInst := match imp with | some r => .reified r p | none => p
@@ -444,6 +491,8 @@ moment of posting. Later, during search, only `detect_inconsistency` (0.`LinearL
 def PropInst.initConflict : PropInst → Doms → Bool
   | .linLe ts c, d => linLeInconsistent ts c d
   | .linNe ts c, d => ts.all (fixed d) && decide (fixedSum d ts = c)
+  -- `CumulativeConstraint::has_task_exceeding_capacity`: decided when the constraint is posted
+  | .cumulative _ ts cap, _ => (ttTasks ts).any (fun k => decide (k.use > cap))
   | _, _ => false
 
 def initPost (d : Doms) : PropInst → Option Doms
